@@ -379,11 +379,19 @@ pub fn compare(tx: &Transaction, spent: &[TxOut], q: &Query, lib: &(Answer, Opti
 fn differential(t: &mut Tape, ctx: &mut Ctx) -> R {
     let case = gen_case(t);
     let nq = 1 + t.below(4);
-    for _ in 0..nq {
+    // every query is asked twice: of a cache created for it alone, and of one cache object shared by all
+    // queries of the case (the digests the statement defines do not depend on what was asked before)
+    let mut shared = SighashCache::new(&case.tx);
+    for qi in 0..nq {
         let q = gen_query(t, &case, true);
         let mut cache = SighashCache::new(&case.tx);
         let lib = lib_answer(&mut cache, &case.spent, &q, true)?;
         compare(&case.tx, &case.spent, &q, &lib, ctx)?;
+        let lib_shared = lib_answer(&mut shared, &case.spent, &q, false)?;
+        if let Err(mut f) = compare(&case.tx, &case.spent, &q, &lib_shared, ctx) {
+            f.msg = clip(format!("(query {} of {} on one shared SighashCache) {}", qi + 1, nq, f.msg));
+            return Err(f);
+        }
         let feats = gen::tx_features(&case.tx);
         let single_oor = q.type_byte() & 3 == 3 && q.idx() >= case.tx.output.len();
         let interesting = q.idx() > 0 || feats.iter().any(|f| ["pegin", "issuance", "reissuance", "conf-asset", "conf-value"].contains(f)) || single_oor;
